@@ -67,12 +67,11 @@ def closure_of_arg(f, op):
 
 
 
-def reader_never_blocks(P, res, rule="READER-NEVER-BLOCKS"):
+def reader_never_blocks(P, res, rule="READER-NEVER-BLOCKS", root="nrepl::handle_message", prefix="nrepl::", floor=3):
     """the connection's reader thread is the only one that can read an `interrupt` or `close`, so nothing it calls directly
     may wait on a session: no bounded-channel send (SyncSender::send blocks when the queue is full), no recv, no join, no
     sleep. (Functions it hands to thread::spawn run on other threads and are not followed.) Shared by C30 and C31."""
     E = P.edges()
-    root = "nrepl::handle_message"
     if root not in P.funcs:
         raise M.MissingAnchor(root)
     seen = {root}
@@ -80,7 +79,7 @@ def reader_never_blocks(P, res, rule="READER-NEVER-BLOCKS"):
     while st:
         x = st.pop()
         for k, tgt, bi in E.get(x, []):
-            if k == "call" and tgt in P.funcs and tgt.startswith("nrepl::") and tgt not in seen:
+            if k == "call" and tgt in P.funcs and tgt.startswith(prefix) and tgt not in seen:
                 seen.add(tgt)
                 st.append(tgt)
     BLOCKING = ("SyncSender::<T>::send", "Receiver::<T>::recv", "Receiver::<T>::recv_timeout", "JoinHandle::<T>::join",
@@ -97,7 +96,7 @@ def reader_never_blocks(P, res, rule="READER-NEVER-BLOCKS"):
                         "%s, which runs on the connection's reader thread, calls %s: with a bounded queue or a wait the reader stops reading, and the "
                         "`interrupt` / `close` that would end the running eval is never seen (and no later request gets its `done`)" % (p_, nm), f.loc(t["span"]))
     res.ok(rule, "nothing the reader thread calls directly can wait on a session (%d functions, %d channel/thread operations looked at)" % (len(seen), n))
-    res.floor(rule, "channel / thread operations on the reader thread", n, 3)
+    res.floor(rule, "channel / thread operations on the reader thread", n, floor)
 
 
 def run(ctx, res):
